@@ -122,10 +122,16 @@ func (s *Server) typecheck(ctx context.Context, uri lsp.DocumentURI, version uin
 	}
 	for _, p := range status.FromError(err) {
 		rng, _, _ := strings.Cut(content[p.Origin.Offset:p.Origin.EndOffset], "\n")
+		// Note: columns are in bytes, LSP counts UTF-16 code units.
+		var line, col int
+		if p.Origin.Line > 0 && p.Origin.Column > 0 && p.Origin.Column-1 <= p.Origin.Offset {
+			line = p.Origin.Line - 1
+			col = utf16Len(content[p.Origin.Offset-(p.Origin.Column-1) : p.Origin.Offset])
+		}
 		res = append(res, lsp.Diagnostic{
 			Range: lsp.Range{
-				Start: lsp.Position{Line: uint32(p.Origin.Line - 1), Character: uint32(p.Origin.Column - 1)},
-				End:   lsp.Position{Line: uint32(p.Origin.Line - 1), Character: uint32(p.Origin.Column - 1 + len(rng))},
+				Start: lsp.Position{Line: uint32(line), Character: uint32(col)},
+				End:   lsp.Position{Line: uint32(line), Character: uint32(col + utf16Len(rng))},
 			},
 			Severity: lsp.DiagnosticSeverityError,
 			Message:  p.Msg,
@@ -224,14 +230,28 @@ func (id id) Kind() int {
 func (id id) Location(uri lsp.DocumentURI) lsp.Location {
 	line, col := id.Node.LineColumn()
 
-	// Note: this function does not handle Unicode correctly
+	// Note: columns are in bytes, LSP counts UTF-16 code units.
+	offset := id.Node.Offset()
+	start := utf16Len(id.Node.Tree().Text()[offset-(col-1) : offset])
 	return lsp.Location{
 		URI: uri,
 		Range: lsp.Range{
-			Start: lsp.Position{Line: uint32(line - 1), Character: uint32(col - 1)},
-			End:   lsp.Position{Line: uint32(line - 1), Character: uint32(col - 1 + len(id.Node.Text()))},
+			Start: lsp.Position{Line: uint32(line - 1), Character: uint32(start)},
+			End:   lsp.Position{Line: uint32(line - 1), Character: uint32(start + utf16Len(id.Node.Text()))},
 		},
 	}
+}
+
+// utf16Len returns the number of UTF-16 code units needed to represent s.
+func utf16Len(s string) int {
+	var ret int
+	for _, r := range s {
+		ret++
+		if r > 0xffff {
+			ret++
+		}
+	}
+	return ret
 }
 
 func collectIDs(ctx context.Context, filename, content string) []id {
